@@ -157,3 +157,33 @@ def refuted_edges(body, ex, hyp, variants=None):
                 elif rel == "ne" and poss and poss <= (set(v) if isinstance(v, (tuple, set, frozenset)) else {v}):
                     out.add((s, tg))
     return out
+
+
+def refuted_edges_concrete(body, ex, env):
+    """Edges contradicted by a concrete assignment to some leaf expressions: every switch whose
+    discriminant can be evaluated under `env` keeps only the edge that value selects."""
+    from .interp import eval_expr, Unknown
+    out = set()
+    decided = 0
+    for s in body.normal:
+        if s not in body.reachable or body.term(s)["k"] != "switch":
+            continue
+        d = ex.switch_discr(s)
+        try:
+            v = eval_expr(d, env)
+        except (Unknown, TypeError, ValueError, IndexError):
+            continue
+        if isinstance(v, bool):
+            v = int(v)
+        if not isinstance(v, int):
+            continue
+        decided += 1
+        t = body.term(s)
+        take = t["otherwise"]
+        for val, tg in t["cases"]:
+            if val == v:
+                take = tg
+        for tg in body.succ.get(s, []):
+            if tg != take:
+                out.add((s, tg))
+    return out, decided
